@@ -13,7 +13,7 @@ CONSTANTS Seed, Stride
 Forms == <<"var", "lit", "binary", "neg", "call", "callarg", "assign", "chain", "opassign", "postinc", "preinc",
            "cond", "comma", "cast", "member", "deref", "index", "stmtexpr">>
 Types == <<"int", "long", "ptr", "float", "double", "ldouble", "small", "big">>
-Ctxs  == <<"exprstmt", "commalhs", "forinc", "condarm", "condarmvoid", "logand", "logor", "voidcast", "arg", "vararg",
+Ctxs  == <<"exprstmt", "commalhs", "forinc", "condarm", "condarmvoid", "logand", "logor", "voidcast", "arg", "arg7", "vararg",
            "init", "return", "ifcond", "assignrhs", "stmtexprdiscard", "stmtexprvalue">>
 
 IsStruct(t) == t \in {"small", "big"}
@@ -25,6 +25,8 @@ Valid(f, t, c) ==
   /\ (t = "ptr" => f \notin {"neg", "lit"})
   /\ (c \in {"logand", "logor", "ifcond"} => Scalar(t))
   /\ (c = "vararg" => t \notin {"float"})        \* a float argument is promoted: covered by double
+  \* "arg7": the value is the 8th argument after seven ints, so one 8-byte word (the 7th int) is passed on
+  \* the stack next to it: an odd number of pending words while the argument itself is pushed
 
 VARIABLES fi, ti, ci, out
 vars == <<fi, ti, ci, out>>
